@@ -119,7 +119,12 @@ def run(ctx):
         it = Interp(env, {}, {}, externals={"fit": lambda a, k: (rec2.__setitem__("fit", (a, k)) or Poly.atom("FITRESULT"))})
         out = it.run(A.strip_docstring(fpf.node.body))
         a, k = rec2["fit"]
-        init_out, fixed_out = a[2], a[4]
+        # bound by fit's own signature: positional or by keyword
+        fit_params = [p_ for p_ in A.params_of(fit.node) if p_ not in ("kwargs",)]
+        bound = dict(zip(fit_params, a))
+        bound.update({k_: v_ for k_, v_ in k.items() if k_ in fit_params})
+        a = [bound.get(p_) for p_ in ("data", "pdf", "init_pars", "par_bounds", "fixed_params")]
+        init_out, fixed_out = a[2] or [], a[4] or []
         ok_vals = [str(to_poly(x)) for x in init_out] == ["i0", "POI", "i2"] and list(fixed_out) == [False, True, False]
         if ok_vals:
             ctx.holds(r2, f"{MLE}::fixed_poi_fit", "init[poi] = poi_val, fixed[poi] = True")
@@ -508,10 +513,13 @@ def _optimizers_interpreted(ctx, rid, repo):
         inst = Instance(sc)
         inst.attrs.update({"maxiter": at("DEFAULT_MAXITER"), "verbose": False, "tolerance": None, "solver_options": {}})
         solver = PyFunc(lambda a, k: (rec.append((a, k)) or Obj("RESULT")), "minimizer")
+        attrs_at_start = {k_: (v_ if isinstance(v_, (bool, dict)) or v_ is None else str(to_poly(v_))) for k_, v_ in inst.attrs.items()}
+        attrs_at_start = {k_: (dict(v_) if isinstance(v_, dict) else v_) for k_, v_ in attrs_at_start.items()}
         caller_bounds = [(at("l0"), at("h0")), (at("l1"), at("h1")), (at("l2"), at("h2"))]  # ONE list object, as a caller reusing its bounds for several fits passes it
         bounds_before = [[str(to_poly(y)) for y in x] for x in caller_bounds]
         for lab, opts in (("first fit, maxiter=M1", {"maxiter": at("M1")}), ("second fit, defaults", {}), ("third fit, solver_options ftol", {"solver_options": {"ftol": at("FTOL")}}), ("fourth fit, defaults", {}),
-                          ("fifth fit, method=L-BFGS-B", {"method": "L-BFGS-B"}), ("sixth fit, method=TNC", {"method": "TNC"}), ("seventh fit, defaults", {})):
+                          ("fifth fit, method=L-BFGS-B", {"method": "L-BFGS-B"}), ("sixth fit, method=TNC", {"method": "TNC"}), ("seventh fit, defaults", {}),
+                          ("eighth fit, tolerance=T1", {"tolerance": at("T1")}), ("ninth fit, defaults", {}), ("tenth fit, verbose=1", {"verbose": c(1)}), ("eleventh fit, defaults", {})):
             x0 = [at("x0"), at("x1"), at("x2")]
             w.call_method(inst, "_minimize", [solver, Obj("FUNC"), x0], {"do_grad": Obj("DO_GRAD"), "bounds": caller_bounds, "fixed_vals": [(c(1), at("v1"))], "options": dict(opts)})
             a, k = rec[-1]
@@ -519,14 +527,21 @@ def _optimizers_interpreted(ctx, rid, repo):
                 ctx.violated(rid, sc.methods["_minimize"], f"caller's bounds [{lab}]", "the fit writes into the bounds list the caller passed (a fixed parameter's bound is overwritten in place): the next fit that reuses the list is silently confined to the previous fit's fixed value", expected=str(bounds_before), found=str([[str(to_poly(y)) for y in x] for x in caller_bounds]))
                 caller_bounds[:] = [(at("l0"), at("h0")), (at("l1"), at("h1")), (at("l2"), at("h2"))]
                 continue
-            opts = {k_: v_ for k_, v_ in opts.items() if k_ != "method"}
+            want_tol = "T1" if "tolerance" in opts else None
+            got_tol = None if k.get("tol") is None else str(to_poly(k.get("tol")))
+            want_disp = "verbose" in opts
+            attrs_now = {k_: (v_ if isinstance(v_, (bool, dict)) or v_ is None else str(to_poly(v_))) for k_, v_ in inst.attrs.items()}
+            if got_tol != want_tol or attrs_now != attrs_at_start:
+                ctx.violated(rid, sc.methods["_minimize"], f"tolerance / optimizer state [{lab}]", "a per-fit option (tolerance, verbose ...) given to ONE fit is still in force for a later fit, or was written onto the optimizer object: every later fit of the session -- the five fits of a hypothesis test among them -- silently runs with the earlier fit's setting", expected=f"tol={want_tol}; optimizer attributes {attrs_at_start}", found=f"tol={got_tol}; optimizer attributes {attrs_now}")
+                continue
+            opts = {k_: v_ for k_, v_ in opts.items() if k_ not in ("method", "tolerance", "verbose")}
             o = k.get("options") or {}
             want_maxiter = "M1" if "maxiter" in opts else "DEFAULT_MAXITER"
             want_keys = {"maxiter", "disp"} | set(opts.get("solver_options", {}))
             got = {kk: (str(to_poly(vv)) if not isinstance(vv, bool) else vv) for kk, vv in o.items()}
             site = f"{OPT}opt_scipy.py::scipy_optimizer._minimize [{lab}]"
             start = [str(to_poly(x)) for x in (a[1] if len(a) > 1 else k.get("x0", []))]
-            if got.get("maxiter") != want_maxiter or set(got) != want_keys:
+            if got.get("maxiter") != want_maxiter or set(got) != want_keys or got.get("disp") is not want_disp:
                 ctx.violated(rid, sc.methods["_minimize"], f"solver options [{lab}]", "the options handed to scipy.optimize.minimize are not this call's (maxiter / disp / solver_options): settings of an EARLIER fit on the same optimizer object leak into later fits", expected=f"maxiter={want_maxiter}, keys {sorted(want_keys)}", found=str(got))
             elif start != ["x0", "v1", "x2"]:
                 ctx.violated(rid, sc.methods["_minimize"], f"start values [{lab}]", "a fixed parameter does not start at its fixed value", expected="['x0', 'v1', 'x2']", found=str(start))
